@@ -32,6 +32,18 @@ REQUIRED_THEOREMS = [
     "SpecVerif.Props.C17.compatible_with_impl",
     "SpecVerif.Props.C17.reachable_shape",
     "SpecVerif.Props.C17.generated_methods_satisfy_hypotheses",
+    # inside the implementation (Model/C17Impl.lean): update / constructor
+    "SpecVerif.Props.C17.update_keyword_reaches_impl",
+    "SpecVerif.Props.C17.update_base_impl",
+    "SpecVerif.Props.C17.update_if_false_is_noop",
+    "SpecVerif.Props.C17.update_copies_unless_inplace",
+    "SpecVerif.Props.C17.update_keywords_reach",
+    "SpecVerif.Props.C17.init_accepts",
+    "SpecVerif.Props.C17.init_keyword_reaches_impl",
+    "SpecVerif.Props.C17.init_default_when_unpassed",
+    "SpecVerif.Props.C17.init_overflow_collects",
+    "SpecVerif.Props.C17.constructor_keywords_reach",
+    "SpecVerif.Props.C17.direct_bases_only_witness",
 ]
 RULE = (
     "method cases = (class of the generated family: scalar / nested-spec / List,Dict,Set of scalars and of spec classes, "
@@ -40,7 +52,13 @@ RULE = (
     "x calls {each advertised parameter alone, by keyword and positionally; each pair; required parameters filled or not; "
     "one positional too many; self by keyword; unadvertised names: attributes of other classes, init=False attributes, the "
     "overflow attribute, private names, singly and next to an advertised one}; builder cases = random with_arg sequences "
-    "(all five kinds, virtual or not) x implementation signatures x calls; bind cases = random valid signatures x random calls. "
+    "(all five kinds, virtual or not) x implementation signatures x calls; bind cases = random valid signatures x random calls; "
+    "hinit/hupd cases = (class hierarchy: 1..5 levels, plain classes in between, plain target, several bases, diamond, key / "
+    "overflow declared at any level, init=False attributes at any level, re-declared and default-overridden attributes) x "
+    "(constructor: every advertised keyword alone with a truthy / falsy / MISSING value, all, one per owning class, pairs, "
+    "keywords outside the signature; update: {no replacement, replacement by position, by keyword, MISSING, EMPTY, UNCHANGED} x "
+    "{_inplace, _if on/off} x {no keyword, each keyword truthy/falsy, all, pairs, MISSING}, on first- and second-generation "
+    "receivers), every call made twice. "
     "A call is non-trivial when it is rejected, or accepted with at least one caller-supplied value reaching the "
     "implementation; distinct = distinct (advertised signature, call shape, outcome)."
 )
@@ -48,6 +66,9 @@ ASSUMPTIONS = [
     "values handed to a parameter are opaque to the wrapper (it only binds, validates names and forwards)",
     "a call never repeats a keyword through ** unpacking of a non-dict mapping (CPython rejects repeated keywords before the call)",
     "virtual (nested-attribute) keyword defaults are documentation of the nested attribute's default and are not injected (DESIGN.md section 10 item 9)",
+    "behaviour model (Model/C17Impl.lean): values given to attribute keywords type-check (the implementations' own type errors are C03/C15), "
+    "the values EMPTY/UNCHANGED are not given to the constructor, None is not given as _new_value, hierarchies are well-formed (hierOKB, "
+    "evaluated on every described hierarchy and compared with the real metadata)",
     "well-formed classes: the KEY attribute is not called `self` or `kwargs` (either makes building the constructor fail loudly with ValueError) and no attribute is private; attributes called `implementation` / `validate_attrs` are ordinary since /repo 0ac9e19 (corpus cases key_named_*.json)",
 ]
 TRUSTED_EXTRA = [
@@ -170,7 +191,25 @@ def base_family():
             {"name": "ghost", "type": "int", "init": False, "default": True},
         ],
     }
-    return [big, keyed, keyed_default, derived, derived_hidden]
+    # three spec-class levels (the grandparent owns the key), and a spec class above a PLAIN class above a spec class
+    derived2 = {
+        "name": "Derived2", "key": None, "overflow": None, "nested": [n_key], "base": derived,
+        "attrs": [
+            {"name": "lvl", "type": "int", "init": True, "default": True},
+            {"name": "third", "type": "str", "init": True, "default": False},
+            {"name": "deep", "type": "nested:0", "init": True, "default": False},
+        ],
+    }
+    plain_mid = {"name": "PlainMid", "plain": True, "key": None, "overflow": None, "nested": [], "attrs": [],
+                 "base": keyed_default}
+    over_plain = {
+        "name": "OverPlain", "key": None, "overflow": None, "nested": [n_over], "base": plain_mid,
+        "attrs": [
+            {"name": "top", "type": "int", "init": True, "default": True},
+            {"name": "tops", "type": "list:nested:0", "init": True, "default": False},
+        ],
+    }
+    return [big, keyed, keyed_default, derived, derived_hidden, derived2, over_plain]
 
 
 def random_nested(rng, i):
@@ -234,17 +273,20 @@ def random_class(rng, idx):
     return {"name": f"R{idx}", "key": key, "overflow": overflow, "attrs": attrs, "nested": nested}
 
 
-def random_derived(rng, idx, base):
-    """A spec class deriving from `base`: own attributes with fresh names, no key/overflow of its own."""
+def random_derived(rng, idx, base, tag="D"):
+    """A spec class deriving from `base` (itself possibly derived; with probability 1/3 through a PLAIN class in
+    between): own attributes with fresh names, no key/overflow of its own."""
     used = {a["name"] for a in all_attr_descs(base)}
     # (names chosen so that none is the singular of an inherited collection: that is C16's open finding D19)
-    pool = [n for n in ["p", "q", "r", "mark", "note", "ws", "zs"] if n not in used]
+    pool = [n for n in ["p", "q", "r", "mark", "note", "ws", "zs", "g", "h", "memo", "vs"] if n not in used]
+    if rng.random() < 1 / 3:
+        base = {"name": f"P{tag}{idx}", "plain": True, "key": None, "overflow": None, "nested": [], "attrs": [], "base": base}
     attrs = []
-    for n in rng.sample(pool, rng.randint(1, 3)):
+    for n in rng.sample(pool, min(len(pool), rng.randint(1, 3))):
         t = "list:int" if n.endswith("s") else rng.choice(["int", "str"])
         init = rng.random() < 0.85
         attrs.append({"name": n, "type": t, "init": init, "default": (not init) or rng.random() < 0.5})
-    return {"name": f"D{idx}", "key": None, "overflow": None, "attrs": attrs, "nested": [], "base": base}
+    return {"name": f"{tag}{idx}", "key": None, "overflow": None, "attrs": attrs, "nested": [], "base": base}
 
 
 def _key(desc):
@@ -289,6 +331,10 @@ def build_class(desc):
             ns[a["name"]] = Attr(default=dflt, init=False)
         elif a["default"]:
             ns[a["name"]] = dflt
+    if desc.get("plain"):
+        # an undecorated class between spec classes: it merely inherits metadata, constructor and helpers
+        _CACHE[k] = (type(desc["name"], (base,), {}), nested)
+        return _CACHE[k]
     cls = type(desc["name"], (base,) if base is not None else (), ns)
     opts = {"bootstrap": True}
     if desc.get("key"):
@@ -568,6 +614,10 @@ def model_lines(case):
         return lines + [call_line(c) for c in case["calls"]]
     if k == "bind":
         return [f"sig {case['sig']}"] + [call_line(c, "bind") for c in case["calls"]]
+    if k == "hinit":
+        return hinit_model_lines(case)
+    if k == "hupd":
+        return hupd_model_lines(case)
     raise ValueError(k)
 
 
@@ -707,6 +757,10 @@ def real_lines(case):
         return real_builder_lines(case)
     if k == "bind":
         return real_bind_lines(case)
+    if k == "hinit":
+        return hinit_real_lines(case)
+    if k == "hupd":
+        return hupd_real_lines(case)
     raise ValueError(k)
 
 
@@ -860,6 +914,10 @@ def oracle(case):
                 for c, (a, b) in zip(case["calls"], pairs) if a != b and not (posonly & set(c[1]))]
     if case["kind"] == "builder":
         return oracle_builder(case)
+    if case["kind"] == "hinit":
+        return hinit_oracle(case)
+    if case["kind"] == "hupd":
+        return hupd_oracle(case)
     P = inspect.Parameter
     MISSING = _sc["MISSING"]
     viol = []
@@ -902,7 +960,7 @@ def oracle(case):
             viol.append(f"{name}: overflow attribute {meta.init_overflow_attr!r} vs advertised ** parameter: {has_over}")
     if sorted(nested_kw) != sorted(expected) or len(set(nested_kw)) != len(nested_kw):
         viol.append(f"{name}: nested keywords {nested_kw} but the init-enabled attributes of the nested class are {expected}")
-    if case["mkind"] in ("init", "update", "withAttr", "updateAttr", "withSeq", "withMap", "withSet") and not viol:
+    if case["mkind"] in BEHAVIOUR_KINDS and not viol:
         viol += behaviour_violations(case)[:6]
     recv = receiver_for(cls, case["cls"], name)
     for c in case["calls"]:
@@ -992,6 +1050,8 @@ def oracle(case):
 
 
 BEHAVIOUR = {"checks": 0}
+BEHAVIOUR_KINDS = ("init", "update", "transform", "withAttr", "updateAttr", "transformAttr",
+                   "withSeq", "updateSeq", "transformSeq", "withMap", "updateMap", "transformMap", "withSet")
 
 
 def sample_values(tname, desc, nested_classes):
@@ -1049,6 +1109,32 @@ def behaviour_violations(case):
                 viol.append(f"{label} [call #{rep}]: {msg}")
                 return
 
+    if mk == "transform":
+        # `_transform` TOGETHER with attribute transforms: both must take effect
+        ovf = eff_overflow(desc)
+        scal = [(a["name"], sample_values(a["type"], desc, nested_classes)) for a in adescs.values()
+                if a["init"] and a["name"] != ovf]
+        scal = [(n, f, t) for n, (f, t) in scal if f and t]
+        for n, f, t in scal:
+            for v in (f[0], t[0]):
+                attempt(f"{desc['name']}().transform({n}=lambda _: {v!r})",
+                        lambda n=n, v=v: cls(**{**req, n: t[0]}).transform(**{n: lambda _old: v}),
+                        lambda o, n=n, v=v: None if same(getattr(o, n, None), v) else f"{n} is {getattr(o, n, '<missing>')!r}")
+                for m, f2, t2 in scal:
+                    if m == n:
+                        continue
+                    def call(n=n, v=v, m=m, t2=t2):
+                        return cls(**req).transform(lambda o: o.update(**{m: t2[0]}), **{n: lambda _old: v})
+
+                    def chk(o, n=n, v=v, m=m, t2=t2):
+                        if not same(getattr(o, n, None), v):
+                            return f"{n} is {getattr(o, n, '<missing>')!r}, not the transformed value {v!r}"
+                        if not same(getattr(o, m, None), t2[0]):
+                            return f"{m} is {getattr(o, m, '<missing>')!r}: the effect of `_transform` was lost"
+                        return None
+                    attempt(f"{desc['name']}().transform(<sets {m}>, {n}=lambda _: {v!r})", call, chk)
+                    break
+        return viol
     if mk in ("init", "update"):
         ovf = eff_overflow(desc)
         kws = [a for a in adescs.values() if a["init"] and a["name"] != ovf]
@@ -1070,6 +1156,29 @@ def behaviour_violations(case):
                 attempt(f"{desc['name']}().update({kw})", lambda kw=kw: cls(**req).update(**kw),
                         lambda o, kw=kw: next((f"{n} is {getattr(o, n, '<missing>')!r}, not the value given {v!r}"
                                                for n, v in kw.items() if not same(getattr(o, n, None), v)), None))
+        if mk == "update":
+            # MODE INTERPLAY: a replacement `_new_value` (by position, by keyword) TOGETHER with attribute keywords
+            # (and `_inplace`): the keywords must arrive on the result, the rest must be the replacement's
+            scal = [(a["name"], sample_values(a["type"], desc, nested_classes)) for a in kws]
+            scal = [(n, f, t) for n, (f, t) in scal if f and t]
+            repl_kw = {**req, **{n: t[0] for n, f, t in scal}}
+            for n, f, t in scal:
+                for v in (f[0], t[0]):
+                    for form in ("pos", "kw", "pos+inplace"):
+                        def call(n=n, v=v, form=form):
+                            q = cls(**repl_kw)
+                            extra = {"_inplace": True} if form == "pos+inplace" else {}
+                            return (cls(**req).update(q, **{n: v}, **extra) if form != "kw"
+                                    else cls(**req).update(_new_value=q, **{n: v}))
+
+                        def chk(o, n=n, v=v):
+                            if not same(getattr(o, n, None), v):
+                                return f"{n} is {getattr(o, n, '<missing>')!r}, not the value given {v!r}"
+                            for m, _f, t2 in scal:
+                                if m != n and not same(getattr(o, m, None), t2[0]):
+                                    return f"{m} is {getattr(o, m, '<missing>')!r}, not the replacement's {t2[0]!r}"
+                            return None
+                        attempt(f"{desc['name']}().update(<replacement {repl_kw}>, {n}={v!r}) [{form}]", call, chk)
         if ovf and mk == "init":
             attempt(f"{desc['name']}(zz=0)", lambda: cls(**{**req, "zz": 0}),
                     lambda o: None if same(getattr(o, ovf, {}).get("zz", "<missing>"), 0) else
@@ -1165,6 +1274,8 @@ def behaviour_violations(case):
                 attempt(f"{name}({nreq}, **{extra_kw})", lambda: call_pos(dict(nreq), dict(extra_kw)),
                         lambda o: None if getattr(get(o), ovf, None) == extra_kw
                         else f"nested overflow attribute {ovf} is {getattr(get(o), ovf, '<missing>')!r}")
+    if nd is not None and len(viol) < 6:
+        interplay_violations(case, cls, nested_classes, name, attr, mk, nd, recv, attempt)
     if len(parts) >= 2 and parts[1] == "int":
         for v in (0, 5):
             if mk == "withSeq":
@@ -1177,6 +1288,86 @@ def behaviour_violations(case):
                 attempt(f"{name}({v})", lambda v=v: getattr(recv(), name)(v),
                         lambda o, v=v: None if getattr(o, attr, None) == {v} else f"{attr} is {getattr(o, attr, None)!r}")
     return viol
+
+
+def interplay_violations(case, cls, nested_classes, name, attr, mk, nd, recv, attempt):
+    """MODE INTERPLAY on the helpers of a nested spec attribute / of a collection of spec items: a nested INSTANCE
+    given as the value (by position or keyword) TOGETHER with nested-attribute keywords; keywords applied to a value
+    that is already there (second-generation receivers); a replacement together with keywords; `_transform` together
+    with attribute transforms. Every keyword must arrive with the value given, everything else must be kept."""
+    ncls = nested_class_for(case, cls, nested_classes)
+    if ncls is None:
+        return []
+    ovf = nd.get("overflow")
+    inits = [x for x in nd["attrs"] if x["init"] and x["name"] != ovf and x["name"] != "self"]
+    vals = lambda role: {x["name"]: (f"{role}v" if x["type"] == "str" else {"i": 41, "j": 43}[role]) for x in inits}  # noqa: E731
+    mk_inst = lambda role: ncls(**vals(role))  # noqa: E731
+    kind = {"Attr": "attr", "Seq": "seq", "Map": "map", "Set": "set"}[mk[-3:] if mk[-3:] in ("Seq", "Map", "Set") else "Attr"]
+    op = mk[: -3 if kind != "attr" else -4]
+    setter = f"with_{attr}"
+    if kind == "attr":
+        seed = lambda: getattr(recv(), setter)(mk_inst("i"))  # noqa: E731
+        get = lambda o: getattr(o, attr)  # noqa: E731
+        lead = ()
+    elif kind == "seq":
+        seed = lambda: getattr(recv(), setter)([mk_inst("i")])  # noqa: E731
+        get = lambda o: getattr(o, attr)[-1]  # noqa: E731
+        lead = (0,)
+    elif kind == "map":
+        seed = lambda: getattr(recv(), setter)({"key": mk_inst("i")})  # noqa: E731
+        get = lambda o: getattr(o, attr)["key"]  # noqa: E731
+        lead = ("key",)
+    else:
+        seed = None
+        get = lambda o: next(iter(getattr(o, attr)))  # noqa: E731
+        lead = ()
+    by_index = {"_by_index": True} if kind == "seq" and op in ("update", "transform") else {}
+
+    def nested_is(expect, role):
+        def chk(o):
+            n = get(o)
+            for k, v in expect.items():
+                if not same(getattr(n, k, None), v):
+                    return f"nested {k} is {getattr(n, k, '<missing>')!r}, not the value given {v!r}"
+            if role:
+                for k, v in vals(role).items():
+                    if k not in expect and not same(getattr(n, k, None), v):
+                        return f"nested {k} is {getattr(n, k, '<missing>')!r}, not {v!r} of the value the keywords were applied to"
+            return None
+        return chk
+
+    for x in inits:
+        f, t = sample_values(x["type"], nd, [])
+        for v in f[:1] + t[:1]:
+            kw = {x["name"]: v}
+            if op == "with":
+                pre = ("key",) if kind == "map" else ()
+                attempt(f"{name}({', '.join(map(repr, pre))}<instance>, **{kw})",
+                        lambda kw=kw, pre=pre: getattr(recv(), name)(*pre, mk_inst("i"), **kw), nested_is(kw, "i"))
+                if kind == "attr":
+                    attempt(f"{name}(_new_value=<instance>, **{kw})",
+                            lambda kw=kw: getattr(recv(), name)(_new_value=mk_inst("i"), **kw), nested_is(kw, "i"))
+            elif op == "update" and seed is not None:
+                attempt(f"<with existing value>.{name}({', '.join(map(repr, lead))}, **{kw})",
+                        lambda kw=kw: getattr(seed(), name)(*lead, **kw, **by_index), nested_is(kw, "i"))
+                attempt(f"<with existing value>.{name}({', '.join(map(repr, lead))}, <replacement>, **{kw})",
+                        lambda kw=kw: getattr(seed(), name)(*lead, mk_inst("j"), **kw, **by_index), nested_is(kw, "j"))
+                if kind == "attr":
+                    attempt(f"{name}(<instance>, **{kw}) [attribute unset]",
+                            lambda kw=kw: getattr(recv(), name)(mk_inst("j"), **kw), nested_is(kw, "j"))
+            elif op == "transform" and seed is not None:
+                tkw = {x["name"]: (lambda _old, v=v: v)}
+                attempt(f"<with existing value>.{name}({', '.join(map(repr, lead))}, {x['name']}=lambda _: {v!r})",
+                        lambda tkw=tkw: getattr(seed(), name)(*lead, **tkw, **by_index), nested_is(kw, "i"))
+                other = next((y for y in inits if y["name"] != x["name"]), None)
+                if other is not None:
+                    ov = vals("j")[other["name"]]
+
+                    def call(tkw=tkw, other=other, ov=ov):
+                        return getattr(seed(), name)(*lead, lambda n: n.update(**{other["name"]: ov}), **tkw, **by_index)
+                    attempt(f"<with existing value>.{name}({', '.join(map(repr, lead))}, <sets {other['name']}>, {x['name']}=lambda _: {v!r})",
+                            call, nested_is({**kw, other["name"]: ov}, None))
+    return []
 
 
 def oracle_builder(case):
@@ -1216,6 +1407,725 @@ def oracle_builder(case):
         if err is not None and spy.calls:
             viol.append(f"builder {case['args']} call {c}: {err} after the implementation was entered")
     return viol
+
+
+
+# ---------------------------------------------------------------------------
+# hierarchies: inheritance depth, plain (undecorated) classes in between, several bases, re-declared
+# attributes, defaults overridden without annotation — and the BEHAVIOUR of the two implementations that
+# take the class's own attribute keywords (`InitMethod.init`, `UpdateMethod.update`; Model/C17Impl.lean)
+# ---------------------------------------------------------------------------
+# hier  = {"classes": [hclass, ...] (definition order), "target": name}
+# hclass = {"name", "bases": [names], "spec": bool, "key": name|None, "overflow": name|None,
+#           "attrs": [{"name","type" (int|str|list),"init","default"}]   annotated (declared or RE-declared) here,
+#           "overrides": [names]}                                         class attribute only (default override)
+
+_HCACHE = {}
+
+
+def h_class(name, bases=(), spec=True, key=None, overflow=None, attrs=(), overrides=()):
+    return {"name": name, "bases": list(bases), "spec": spec, "key": key, "overflow": overflow,
+            "attrs": [dict(a) for a in attrs], "overrides": list(overrides)}
+
+
+def h_attr(name, type="int", init=True, default=True):  # noqa: A002
+    return {"name": name, "type": type, "init": init, "default": default}
+
+
+def h_idx(h):
+    return {c["name"]: c for c in h["classes"]}
+
+
+_HKEYS = {}
+
+
+def h_key(h):
+    """Canonical text of a description, memoised per dict object (a reference is kept, so ids are not reused)."""
+    e = _HKEYS.get(id(h))
+    if e is None or e[0] is not h:
+        e = _HKEYS[id(h)] = (h, _key(h))
+    return e[1]
+
+
+def h_mro(h, name):
+    """Python's own MRO, from shadow classes with the same bases (no spec_classes involved)."""
+    k = ("mro", h_key(h))
+    if k not in _HCACHE:
+        sh = {}
+        for c in h["classes"]:
+            sh[c["name"]] = type(c["name"], tuple(sh[b] for b in c["bases"]), {})
+        _HCACHE[k] = {n: [x.__name__ for x in cl.__mro__ if x is not object] for n, cl in sh.items()}
+    return _HCACHE[k][name]
+
+
+def h_meta(h, name):
+    """{"attrs": {name: {"init","owner","type"}} (ordered), "key", "overflow"} as `spec_class.bootstrap`
+    assembles it for the class (the metadata a plain class inherits when it is not a spec class); None if none."""
+    ck = ("meta", h_key(h), name)
+    if ck not in _HCACHE:
+        _HCACHE[ck] = _h_meta(h, name)
+    return _HCACHE[ck]
+
+
+def _h_meta(h, name):
+    idx = h_idx(h)
+    c = idx[name]
+    spec_anc = [k for k in h_mro(h, name)[1:] if idx[k]["spec"]]
+    if not c["spec"]:
+        return h_meta(h, spec_anc[0]) if spec_anc else None
+    attrs, key, overflow = {}, None, None
+    if spec_anc:
+        for parent in reversed(c["bases"]):
+            pm = h_meta(h, parent)
+            if pm:
+                attrs.update({n: dict(a) for n, a in pm["attrs"].items()})
+        first = h_meta(h, spec_anc[0])
+        key, overflow = first["key"], first["overflow"]
+    key = c["key"] or key
+    overflow = c["overflow"] or overflow
+    for a in c["attrs"]:
+        attrs[a["name"]] = {"init": a["init"], "owner": name, "type": a["type"]}
+    if c["overflow"]:
+        attrs[c["overflow"]] = {"init": True, "owner": name, "type": "dict"}
+    return {"attrs": attrs, "key": key, "overflow": overflow}
+
+
+def h_default(h, cname, attr, atype):
+    """The default value class `cname` declares for `attr` (distinct per declaring class)."""
+    ci = [c["name"] for c in h["classes"]].index(cname)
+    return {"int": 7 + 10 * ci, "str": f"dflt{ci}", "list": [700 + ci], "dict": {}}[atype]
+
+
+_NODEFAULT = object()
+
+
+def h_lookup_default(h, tname, attr, owner, atype):
+    """What an instance of `tname` gets when the keyword is not passed ("defaults are as shown"): the nearest
+    class-level value along the MRO — a declaration with a default, or a plain class attribute overriding it.
+    (A re-declaration WITHOUT default keeps showing the value inherited from further up.)"""
+    idx = h_idx(h)
+    for k in h_mro(h, tname):
+        c = idx[k]
+        a = next((x for x in c["attrs"] if x["name"] == attr), None)
+        if (a is not None and (a["default"] or not a["init"])) or attr in c["overrides"]:
+            return h_default(h, k, attr, atype)
+    return _NODEFAULT
+
+
+def h_spec_class(h, tname=None):
+    """The spec class whose generated methods an instance of the target uses."""
+    tname = tname or h["target"]
+    idx = h_idx(h)
+    return next(k for k in h_mro(h, tname) if idx[k]["spec"])
+
+
+def h_ctor_tokens(h, cname):
+    """(key token, nested token) of the constructor generated for spec class `cname`."""
+    m = h_meta(h, cname)
+    key_tok = "-"
+    if m["key"]:
+        a = m["attrs"][m["key"]]
+        d = h_lookup_default(h, cname, m["key"], a["owner"], a["type"]) is not _NODEFAULT
+        key_tok = f"{m['key']}:{1 if d else 0}"
+    nested = f"{m['overflow'] or '_'};" + ",".join(f"{n}:{1 if a['init'] else 0}" for n, a in m["attrs"].items())
+    return key_tok, nested
+
+
+def h_model_hier(h):
+    """The `hier …` line: everything derived from the DESCRIPTION."""
+    t = h["target"]
+    s = h_spec_class(h)
+    idx = h_idx(h)
+    m = h_meta(h, s)
+    anc = h_mro(h, s)[1:]
+    ids = {k: i + 1 for i, k in enumerate(anc)}
+    ids[s] = 0
+    attrs = []
+    for n, a in m["attrs"].items():
+        d = h_lookup_default(h, t, n, a["owner"], a["type"]) is not _NODEFAULT
+        attrs.append(f"{n}:{1 if a['init'] else 0}:{ids[a['owner']]}:{1 if d else 0}")
+    toks = []
+    for k in anc:
+        if idx[k]["spec"]:
+            kt, nt = h_ctor_tokens(h, k)
+            toks.append(f"{ids[k]}/1/{kt}/{nt}")
+        else:
+            toks.append(f"{ids[k]}/0/-/-")
+    return " ".join(["hier", m["overflow"] or "_", ",".join(attrs) or "-"] + toks)
+
+
+def build_hier(h):
+    """The real classes of a hierarchy description: {name: class}."""
+    k = ("real", h_key(h))
+    if k in _CACHE:
+        return _CACHE[k]
+    from typing import Dict, List  # noqa: F401
+
+    spec_class, Attr = _sc["spec_class"], _sc["Attr"]
+    pytypes = {"int": int, "str": str, "list": List[int]}
+    classes = {}
+    for c in h["classes"]:
+        ns = {"__annotations__": {}}
+        for a in c["attrs"]:
+            ns["__annotations__"][a["name"]] = pytypes[a["type"]]
+            dv = h_default(h, c["name"], a["name"], a["type"])
+            if not a["init"]:
+                ns[a["name"]] = Attr(default=dv, init=False)
+            elif a["default"]:
+                ns[a["name"]] = dv
+        partial = {"classes": [x for x in h["classes"] if x["name"] in classes or x is c], "target": c["name"]}
+        for n in c["overrides"]:
+            atype = h_meta(partial, h_spec_class(partial, c["bases"][0]))["attrs"][n]["type"]
+            ns[n] = h_default(h, c["name"], n, atype)
+        if not c["spec"]:
+            del ns["__annotations__"]
+        cls = type(c["name"], tuple(classes[b] for b in c["bases"]), ns)
+        if c["spec"]:
+            opts = {"bootstrap": True}
+            if c["key"]:
+                opts["key"] = c["key"]
+            if c["overflow"]:
+                opts["init_overflow_attr"] = c["overflow"]
+            cls = spec_class(**opts)(cls)
+        classes[c["name"]] = cls
+    _CACHE[k] = classes
+    return classes
+
+
+def h_real_hier(h):
+    """The `hier …` line read off the REAL classes (`__spec_class__` metadata, `mro()`, `inspect.signature`)."""
+    MISSING = _sc["MISSING"]
+    classes = build_hier(h)
+    T = classes[h["target"]]
+    meta = T.__spec_class__
+    S = meta.owner
+    anc = [k for k in S.mro()[1:] if k is not object]
+
+    def oid(o):
+        return 0 if o is S else (anc.index(o) + 1 if o in anc else 99)
+
+    attrs = [f"{n}:{1 if a.init else 0}:{oid(a.owner)}:{0 if a.lookup_default_value(T) is MISSING else 1}"
+             for n, a in meta.attrs.items()]
+    toks = []
+    for i, p in enumerate(anc):
+        pm = p.__dict__.get("__spec_class__", None)
+        if pm:
+            toks.append(f"{i + 1}:1:{pm.key or '_'}:{'+'.join(pm.attrs) or '-'}:{sig_token(inspect.signature(p.__init__))}")
+        else:
+            toks.append(f"{i + 1}:0:_:-:-")
+    return f"hier 1 ;; {meta.init_overflow_attr or '_'} ;; {','.join(attrs) or '-'} ;; " + " ".join(toks)
+
+
+# --- values ----------------------------------------------------------------------------------------------
+
+H_MODES = {"t": "truthy value", "f": "falsy value", "m": "MISSING passed explicitly"}
+
+
+def h_value(atype, role, name, mode="t"):
+    """A well-typed value for an attribute; distinct per (role, attribute name) unless falsy."""
+    n = sum(ord(ch) for ch in name) % 89
+    base = {"k": 1000, "s": 2000, "q": 3000}[role]
+    if mode == "f":
+        return {"int": 0, "str": "", "list": [], "dict": {}}[atype]
+    return {"int": base + n, "str": f"{role}_{name}", "list": [base + n], "dict": {role: n}}[atype]
+
+
+def h_label(name, v, pools, default):
+    """Canonical token of a stored value: which of the values in play it is (own name first)."""
+    order = [name] + [n for pool in pools.values() for n in pool if n != name]
+    for n in order:
+        for role, pool in pools.items():
+            if n in pool and same(v, pool[n]):
+                return f"{role}.{n}"
+        if n == name and default is not _NODEFAULT and same(v, default):
+            return f"D.{name}"
+    return "?" + type(v).__name__
+
+
+def h_fields(h, obj, pools):
+    """Attributes of a spec instance in the protocol's form (sorted by name; the overflow attribute is shown apart)."""
+    meta = type(obj).__spec_class__
+    out = []
+    for n in sorted(obj.__dict__):
+        if n.startswith("_") or n == meta.init_overflow_attr:
+            continue
+        a = meta.attrs.get(n)
+        dflt = _NODEFAULT
+        m = h_meta(h, h_spec_class(h))
+        if a is not None and n in m["attrs"]:
+            dflt = h_lookup_default(h, h["target"], n, m["attrs"][n]["owner"], m["attrs"][n]["type"])
+        out.append(f"{n}={h_label(n, obj.__dict__[n], pools, dflt)}")
+    return ",".join(out) or "-"
+
+
+def h_kw_values(h, kws, role="k"):
+    """keyword tokens [name, mode] -> {name: real value}"""
+    MISSING = _sc["MISSING"]
+    m = h_meta(h, h_spec_class(h))
+    out = {}
+    for n, mode in kws:
+        atype = m["attrs"][n]["type"] if n in m["attrs"] and m["attrs"][n]["type"] != "dict" else "int"
+        out[n] = MISSING if mode == "m" else h_value(atype, role, n, mode)
+    return out
+
+
+def h_kw_tokens(kws):
+    return [n if mode != "m" else f"{n}=M.{n}" for n, mode in kws]
+
+
+# --- constructor ------------------------------------------------------------------------------------------
+
+
+def hinit_model_lines(case):
+    h = case["hier"]
+    kt, nt = h_ctor_tokens(h, h_spec_class(h))
+    return ["impl self/pk/0,kwargs/vk/0", f"method init {kt} {nt}", h_model_hier(h)] + [
+        " ".join(["new"] + h_kw_tokens(kws)) for _, kws in case["calls"]]
+
+
+def hinit_once(h, T, kws):
+    MISSING = _sc["MISSING"]
+    passed = h_kw_values(h, kws)
+    try:
+        o = T(**passed)
+    except Exception as e:  # noqa: BLE001
+        return "err " + type(e).__name__, None, passed
+    meta = T.__spec_class__
+    pools = {"k": {n: v for n, v in passed.items() if v is not MISSING}}
+    line = "ok " + h_fields(h, o, pools) + " ;; ovf "
+    if not meta.init_overflow_attr:
+        line += "none"
+    else:
+        ov = o.__dict__.get(meta.init_overflow_attr, None)
+        if not isinstance(ov, dict):
+            line += f"?{type(ov).__name__}"
+        else:
+            line += ",".join(f"{k}={'M' if ov[k] is MISSING else h_label(k, ov[k], pools, _NODEFAULT)}" for k in sorted(ov)) or "-"
+    return line, o, passed
+
+
+def hinit_real_lines(case):
+    h = case["hier"]
+    T = build_hier(h)[h["target"]]
+    out = ["impl", head_line(T.__init__), h_real_hier(h)]
+    for _, kws in case["calls"]:
+        first = hinit_once(h, T, kws)[0]
+        again = hinit_once(h, T, kws)[0]  # (the same call a second time in the same process)
+        out.append(first if first == again else f"{first} !! second call: {again}")
+    return out
+
+
+def hinit_oracle(case):
+    """Property text on the constructor of a class of a hierarchy: what `inspect.signature` accepts is accepted and
+    every keyword given is what the attribute holds (or sits in the overflow attribute when absorbed by `**`)."""
+    P = inspect.Parameter
+    MISSING = _sc["MISSING"]
+    h = case["hier"]
+    T = build_hier(h)[h["target"]]
+    sig = inspect.signature(T.__init__)
+    ovf = T.__spec_class__.init_overflow_attr
+    viol = []
+    # Open finding KF-C17-plain-override-shown-default: a PLAIN class in the MRO that overrides the default of an inherited
+    # attribute changes what the constructor stores, but the signature of the spec class BELOW it keeps showing the
+    # ancestor's default. Those violations are reported (matcher `plain_override_shown_default`), apart from all others:
+    # they are returned only when the case has no other violation, so that they can never mask one.
+    shown_viol = []
+    meta_d = h_meta(h, h_spec_class(h))
+    idx = h_idx(h)
+    plain_overridden = {n for k in h_mro(h, h["target"]) if not idx[k]["spec"] for n in idx[k]["overrides"]}
+    for _, kws in case["calls"]:
+        passed = h_kw_values(h, kws)
+        try:
+            sig.bind(object(), **passed)
+            exp_ok = True
+        except TypeError:
+            exp_ok = False
+        for rep in (1, 2):
+            label = f"{T.__name__}({', '.join(f'{k}={v!r}' for k, v in passed.items())}) [call #{rep}]"
+            try:
+                o = T(**passed)
+            except TypeError as e:
+                if exp_ok:
+                    viol.append(f"{label}: accepted by the advertised signature {sig} but raised TypeError: {e}")
+                break
+            except Exception as e:  # noqa: BLE001
+                viol.append(f"{label}: raised {type(e).__name__}: {e}")
+                break
+            if not exp_ok:
+                viol.append(f"{label}: not accepted by the advertised signature {sig} but the constructor accepted it")
+                break
+            for n, v in passed.items():
+                if v is MISSING:
+                    continue
+                p = sig.parameters.get(n)
+                if p is not None and p.kind in (P.KEYWORD_ONLY, P.POSITIONAL_OR_KEYWORD):
+                    got = o.__dict__.get(n, "<never initialised>")
+                    if not same(got, v):
+                        viol.append(f"{label}: advertised keyword {n} was accepted but the instance holds {got!r}, not the value given {v!r}")
+                elif ovf:
+                    got = getattr(o, ovf, {}).get(n, "<missing>") if isinstance(getattr(o, ovf, None), dict) else "<no dict>"
+                    if not same(got, v):
+                        viol.append(f"{label}: keyword {n} absorbed by **{ovf} but {ovf}[{n!r}] is {got!r}")
+            if h_idx(h)[h["target"]]["spec"]:
+                # "defaults are as shown": an advertised keyword that is not passed leaves the shown default on the instance
+                # (for a plain target the signature is its spec-class parent's; class-level overrides there are not shown)
+                for n, p in sig.parameters.items():
+                    if (p.kind is P.KEYWORD_ONLY and n not in passed and p.default is not P.empty
+                            and p.default is not MISSING and not same(o.__dict__.get(n, "<never initialised>"), p.default)):
+                        got = o.__dict__.get(n, "<never initialised>")
+                        msg = (f"{label}: {n} not passed; the signature shows the default {p.default!r} but the instance "
+                               f"holds {got!r}")
+                        a = meta_d["attrs"].get(n)
+                        if (n in plain_overridden and a is not None
+                                and same(got, h_lookup_default(h, h["target"], n, a["owner"], a["type"]))):
+                            if len(shown_viol) < 6:
+                                shown_viol.append(msg + SHOWN_DEFAULT_TAG)  # exactly the finding's shape
+                        else:
+                            viol.append(msg)
+            if viol:
+                break
+        if len(viol) > 6:
+            break
+    return viol or shown_viol
+
+
+SHOWN_DEFAULT_TAG = " [the stored value is the default a PLAIN class in the MRO assigns]"
+
+
+def plain_override_shown_default(case, violation):
+    """KF-C17-plain-override-shown-default: ONLY constructor cases of a spec class with a plain class in its MRO that
+    overrides the default of an inherited attribute, and ONLY violations saying that this attribute's shown default is not
+    what an instance holds (the oracle tags them when the stored value is exactly the plain class's override)."""
+    import re
+
+    if not isinstance(case, dict) or case.get("kind") != "hinit" or not violation:
+        return False
+    h = case["hier"]
+    idx = h_idx(h)
+    if not idx[h["target"]]["spec"]:
+        return False
+    overridden = {n for k in h_mro(h, h["target"]) if not idx[k]["spec"] for n in idx[k]["overrides"]}
+    if not overridden:
+        return False
+    for v in violation:
+        m = re.search(r": (\w+) not passed; the signature shows the default ", v) if isinstance(v, str) else None
+        if m is None or m.group(1) not in overridden or not v.endswith(SHOWN_DEFAULT_TAG):
+            return False
+    return True
+
+
+KNOWN_MATCHERS = {"plain_override_shown_default": plain_override_shown_default}
+
+
+# --- update -----------------------------------------------------------------------------------------------
+
+
+def h_init_names(h):
+    m = h_meta(h, h_spec_class(h))
+    return [n for n, a in m["attrs"].items() if a["init"] and n != m["overflow"]]
+
+
+def h_instance_fields(h, role):
+    """Attributes of `Target(**{every init-enabled attribute: role value})`, from the description."""
+    m = h_meta(h, h_spec_class(h))
+    out = []
+    for n, a in m["attrs"].items():
+        if n == m["overflow"]:
+            continue
+        if a["init"]:  # (attributes with init=False are left to `__post_init__`; the class-level default shows through)
+            out.append(f"{n}={role}.{n}")
+    return ",".join(sorted(out)) or "-"
+
+
+def hupd_tokens(c):
+    npos, kws = c
+    toks = []
+    for n, mode in kws:
+        if n == "_new_value":
+            toks.append("_new_value=Q" if mode == "q" else f"_new_value={mode}.nv")
+        elif n in ("_inplace", "_if"):
+            toks.append(f"{n}={mode}.{n}")
+        else:
+            toks.append(n if mode != "m" else f"{n}=M.{n}")
+    return " ".join(["upd", str(npos)] + toks)
+
+
+def hupd_model_lines(case):
+    h = case["hier"]
+    _, nt = h_ctor_tokens(h, h_spec_class(h))
+    return ["impl self/pk/0,_new_value/pk/1,_inplace/ko/1,_if/ko/1,attrs/vk/0", f"method update - {nt}",
+            "obj self " + h_instance_fields(h, "s"), "obj new " + h_instance_fields(h, "q")] + [
+        hupd_tokens(c) for c in case["calls"]]
+
+
+def hupd_objects(h, gen):
+    T = build_hier(h)[h["target"]]
+    m = h_meta(h, h_spec_class(h))
+    names = h_init_names(h)
+    sv = {n: h_value(m["attrs"][n]["type"], "s", n) for n in names}
+    qv = {n: h_value(m["attrs"][n]["type"], "q", n) for n in names}
+    recv, q = T(**sv), T(**qv)
+    if gen == 2 and names:
+        # a second-generation receiver: itself the product of an earlier `update`
+        recv = T(**{**sv, names[0]: h_value(m["attrs"][names[0]]["type"], "k", names[0])}).update(**{names[0]: sv[names[0]]})
+        q = q.update()
+    return T, recv, q, sv, qv
+
+
+def hupd_call(h, gen, c):
+    """(positional args, keyword args, receiver, replacement, pools) of one call, on fresh objects"""
+    from spec_classes.types import EMPTY, UNCHANGED
+
+    MISSING = _sc["MISSING"]
+    T, recv, q, sv, qv = hupd_objects(h, gen)
+    npos, kws = c
+    pos = [q] + [5] * (npos - 2) if npos >= 2 else []
+    attr_kws = [(n, mode) for n, mode in kws if n not in ("_new_value", "_inplace", "_if")]
+    kw = h_kw_values(h, attr_kws)
+    for n, mode in kws:
+        if n == "_new_value":
+            kw[n] = {"q": q, "M": MISSING, "E": EMPTY, "U": UNCHANGED}[mode]
+        elif n in ("_inplace", "_if"):
+            kw[n] = mode == "T"
+    pools = {"k": {n: v for n, v in kw.items() if v is not MISSING and n not in ("_new_value", "_inplace", "_if")},
+             "s": sv, "q": qv}
+    return pos, kw, recv, q, pools
+
+
+def hupd_real_lines(case):
+    h = case["hier"]
+    T = build_hier(h)[h["target"]]
+    out = ["impl", head_line(T.update), "obj", "obj"]
+    for c in case["calls"]:
+        lines = []
+        for _rep in (1, 2):
+            pos, kw, recv, q, pools = hupd_call(h, case["gen"], c)
+            try:
+                r = recv.update(*pos, **kw)
+            except Exception as e:  # noqa: BLE001
+                lines.append("err " + type(e).__name__)
+                continue
+            src = "self" if r is recv else ("new" if r is q else "copy")
+            if not hasattr(type(r), "__spec_class__"):
+                lines.append(f"ok {src} ;; res ?{type(r).__name__}")
+                continue
+            lines.append(f"ok {src} ;; res {h_fields(h, r, pools)} ;; self {h_fields(h, recv, pools)} ;; new {h_fields(h, q, pools)}")
+        out.append(lines[0] if lines[0] == lines[1] else f"{lines[0]} !! second call: {lines[1]}")
+    return out
+
+
+def hupd_oracle(case):
+    """Property text on `update` of a class of a hierarchy: an accepted call's attribute keywords are what the result
+    holds — whatever else is passed alongside (`_new_value` by position or keyword, `_inplace`) — and the replacement
+    given as `_new_value` is what the result is built from."""
+    from spec_classes.types import EMPTY, UNCHANGED
+
+    MISSING = _sc["MISSING"]
+    h = case["hier"]
+    viol = []
+    for c in case["calls"]:
+        pos, kw, recv, q, _ = hupd_call(h, case["gen"], c)
+        sig = inspect.signature(recv.update)
+        label = f"{type(recv).__name__}.update({', '.join(['<replacement>'] * len(pos) + [f'{k}={v!r}' for k, v in kw.items()])})"
+        try:
+            sig.bind(*pos, **kw)
+            exp_ok = True
+        except TypeError:
+            exp_ok = False
+        before = snapshot(recv)
+        try:
+            r = recv.update(*pos, **kw)
+        except TypeError as e:
+            if exp_ok:
+                viol.append(f"{label}: accepted by the advertised signature {sig} but raised TypeError: {e}")
+            elif snapshot(recv) != before:
+                viol.append(f"{label}: TypeError raised but the receiver changed")
+            continue
+        except Exception as e:  # noqa: BLE001
+            viol.append(f"{label}: raised {type(e).__name__}: {e}")
+            continue
+        if not exp_ok:
+            viol.append(f"{label}: not accepted by the advertised signature {sig} but the method accepted it")
+            continue
+        nv = pos[0] if pos else kw.get("_new_value", MISSING)
+        if not kw.get("_if", True) or nv is UNCHANGED:
+            continue  # the documented no-op switches
+        names = [n for n in sig.parameters if n not in ("_new_value", "_inplace", "_if")]
+        for n, v in kw.items():
+            if n in ("_new_value", "_inplace", "_if") or v is MISSING or n not in names:
+                continue
+            got = getattr(r, n, "<missing>")
+            if not same(got, v):
+                viol.append(f"{label}: advertised keyword {n} was accepted but the result holds {got!r}, not the value given {v!r}")
+        if nv is not MISSING and nv is not EMPTY:
+            for n in h_init_names(h):
+                if n not in kw and not same(getattr(r, n, "<missing>"), getattr(nv, n, "<missing-on-replacement>")):
+                    viol.append(f"{label}: the replacement given as _new_value did not reach the result: {n} is {getattr(r, n, '<missing>')!r}")
+        if len(viol) > 6:
+            break
+    return viol
+
+
+# --- hierarchy family -------------------------------------------------------------------------------------
+
+
+def fixed_hiers():
+    A, C = h_attr, h_class
+    out = []
+    # depth 1, 2, 3, 4 of spec classes
+    base = C("Base", attrs=[A("name", "str"), A("tags", "list")])
+    mid = C("Mid", ["Base"], attrs=[A("level")])
+    leaf = C("Leaf", ["Mid"], attrs=[A("size")])
+    deep = C("Deep", ["Leaf"], attrs=[A("depth", "str", default=False)])
+    for n, cs in enumerate(([base], [base, mid], [base, mid, leaf], [base, mid, leaf, deep])):
+        out.append({"classes": list(cs), "target": cs[-1]["name"]})
+    # a plain class between two spec classes (overriding a default or not); a plain target; two plain in a row
+    out.append({"classes": [base, C("Plain", ["Base"], spec=False), C("Leaf2", ["Plain"], attrs=[A("extra")])], "target": "Leaf2"})
+    out.append({"classes": [base, C("PlainO", ["Base"], spec=False, overrides=["name"]),
+                            C("Leaf3", ["PlainO"], attrs=[A("extra", default=False)])], "target": "Leaf3"})
+    out.append({"classes": [base, mid, C("PlainLeaf", ["Mid"], spec=False, overrides=["level"])], "target": "PlainLeaf"})
+    out.append({"classes": [base, C("P1", ["Base"], spec=False), C("P2", ["P1"], spec=False, overrides=["tags"]),
+                            C("Leaf4", ["P2"], attrs=[A("extra", "str")]), C("P3", ["Leaf4"], spec=False),
+                            C("Leaf5", ["P3"], attrs=[A("more", "list", default=False)])], "target": "Leaf5"})
+    # key declared at the root (no default) / in the middle (default); init=False attributes on every level;
+    # attributes without default
+    kbase = C("KBase", key="ident", attrs=[A("ident", "str", default=False), A("hidden0", init=False), A("plain0", default=False)])
+    kmid = C("KMid", ["KBase"], attrs=[A("hidden1", "str", init=False), A("m1", "str")])
+    kleaf = C("KLeaf", ["KMid"], attrs=[A("hidden2", init=False), A("l1", "list", default=False)])
+    out.append({"classes": [kbase, kmid, kleaf], "target": "KLeaf"})
+    out.append({"classes": [C("R0", attrs=[A("a")]), C("R1", ["R0"], key="k", attrs=[A("k", "str"), A("b", "str")]),
+                            C("R2", ["R1"], attrs=[A("c", default=False)]), C("R3", ["R2"], attrs=[A("d", "list")])], "target": "R3"})
+    # overflow attribute declared at the root / in the middle / on the class itself
+    out.append({"classes": [C("OBase", overflow="rest", attrs=[A("p")]), C("OMid", ["OBase"], attrs=[A("q", "str")]),
+                            C("OLeaf", ["OMid"], attrs=[A("r", init=False), A("t", "list")])], "target": "OLeaf"})
+    out.append({"classes": [C("O0", attrs=[A("p")]), C("O1", ["O0"], overflow="extra", attrs=[A("q", "str")]),
+                            C("O2", ["O1"], attrs=[A("r")])], "target": "O2"})
+    out.append({"classes": [C("O3", attrs=[A("p"), A("u", "str", default=False)]), C("O4", ["O3"], attrs=[A("q")]),
+                            C("O5", ["O4"], overflow="more", key="u", attrs=[A("r")])], "target": "O5"})
+    # re-declared (re-annotated: the subclass owns it) and default-only overridden (owner unchanged) attributes
+    out.append({"classes": [C("D0", attrs=[A("x"), A("y", "str"), A("z", default=False)]),
+                            C("D1", ["D0"], attrs=[A("x"), A("w", "str")], overrides=["z"]),
+                            C("D2", ["D1"], attrs=[A("y", "str", default=False), A("v")], overrides=["x"])], "target": "D2"})
+    # several spec bases, and a class below that
+    ma = C("MA", attrs=[A("a1"), A("a2", "str", default=False)])
+    mb = C("MB", attrs=[A("b1", "list"), A("b2", init=False)])
+    mc = C("MC", ["MA", "MB"], attrs=[A("c1", "str")])
+    md = C("MD", ["MC"], attrs=[A("d1")])
+    out.append({"classes": [ma, mb, mc], "target": "MC"})
+    out.append({"classes": [ma, mb, mc, md], "target": "MD"})
+    # a diamond
+    out.append({"classes": [C("G", attrs=[A("g")]), C("GL", ["G"], attrs=[A("gl", "str")]), C("GR", ["G"], attrs=[A("gr")]),
+                            C("GB", ["GL", "GR"], attrs=[A("gb", "list")])], "target": "GB"})
+    return out
+
+
+H_POOL = ["alpha", "beta", "gamma", "delta", "eps", "zeta", "eta", "theta", "iota", "kappa", "lam", "mu"]
+
+
+def random_hier(rng, i):
+    depth = rng.randint(2, 5)
+    pool = list(H_POOL)
+    rng.shuffle(pool)
+    classes, declared = [], []  # declared: [(name, type)]
+    key_level = rng.randrange(depth) if rng.random() < 0.35 else None
+    ovf_level = rng.randrange(depth) if rng.random() < 0.3 else None
+    has_key = has_ovf = False
+    for lvl in range(depth):
+        spec = lvl == 0 or rng.random() < 0.7
+        name = f"H{i}L{lvl}"
+        bases = [classes[-1]["name"]] if classes else []
+        attrs, overrides = [], []
+        if spec:
+            for _ in range(rng.randint(0 if lvl else 1, 2)):
+                if pool:
+                    init = rng.random() < 0.85
+                    attrs.append(h_attr(pool.pop(), rng.choice(["int", "str", "list"]), init, (not init) or rng.random() < 0.6))
+            if declared and rng.random() < 0.2:
+                n, t = rng.choice(declared)
+                if n not in [a["name"] for a in attrs]:
+                    attrs.append(h_attr(n, t, True, rng.random() < 0.7))  # re-declared here
+        if declared and rng.random() < 0.25:
+            n, _t = rng.choice(declared)
+            if n not in [a["name"] for a in attrs]:
+                overrides.append(n)
+        key = overflow = None
+        if spec and key_level is not None and lvl >= key_level and not has_key:
+            cands = [a for a in attrs if a["type"] == "str" and a["init"]]
+            if cands:
+                key, has_key = cands[0]["name"], True
+        if spec and ovf_level is not None and lvl >= ovf_level and not has_ovf:
+            overflow, has_ovf = "rest", True
+        declared += [(a["name"], a["type"]) for a in attrs if (a["name"], a["type"]) not in declared]
+        classes.append(h_class(name, bases, spec, key, overflow, attrs, overrides))
+    return {"classes": classes, "target": classes[-1]["name"]}
+
+
+def hier_cases(h, rng, tier):
+    """The constructor and `update` of the target class: every advertised keyword alone (truthy, falsy, MISSING),
+    all of them, one per owning class, pairs; keywords outside the signature; `_new_value` x `_inplace` x `_if` x keywords."""
+    m = h_meta(h, h_spec_class(h))
+    names = h_init_names(h)
+    kt, _ = h_ctor_tokens(h, h_spec_class(h))
+    req = [[m["key"], "t"]] if kt.endswith(":0") else []
+    reqn = [r[0] for r in req]
+    free = [n for n in names if n not in reqn]
+    by_owner = {}
+    for n in free:
+        by_owner.setdefault(m["attrs"][n]["owner"], n)
+    unadv = ["bogus"] + [n for n, a in m["attrs"].items() if not a["init"]][:2] + ([m["overflow"]] if m["overflow"] else [])
+    sets = [[]] + [[[n, md]] for n in free for md in ("t", "f", "m")]
+    sets.append([[n, "t"] for n in free])
+    sets.append([[n, "f"] for n in free])
+    sets.append([[n, "t"] for n in by_owner.values()])
+    pairs = list(itertools.combinations(free, 2))
+    if len(pairs) > (12 if tier != "thorough" else 60):
+        pairs = rng.sample(pairs, 12 if tier != "thorough" else 60)
+    sets += [[[a, rng.choice("tf")], [b, rng.choice("tf")]] for a, b in pairs]
+    sets += [[[u, "t"]] for u in unadv] + [[[u, "f"], [free[0], "t"]] for u in unadv if free]
+    calls = [[1, req + s] for s in sets]
+    if req:
+        calls += [[1, []], [1, [[free[0], "t"]]] if free else [1, []], [1, [[reqn[0], "f"]]], [1, [[reqn[0], "m"]]]]
+    yield {"kind": "hinit", "hier": h, "calls": _dedup(calls), "origin": "hier"}
+
+    attr_sets = [[]] + [[[n, md]] for n in names for md in ("t", "f")] + [[[n, "t"] for n in names]]
+    attr_sets += [[[a, rng.choice("tf")], [b, rng.choice("tf")]] for a, b in pairs[:6]]
+    if names:
+        attr_sets.append([[names[0], "m"]])
+        attr_sets.append([[names[0], "m"]] + [[n, "f"] for n in names[1:2]])
+    attr_sets += [[[u, "t"]] for u in unadv if u != m["overflow"]][:2]
+    if m["overflow"]:
+        attr_sets.append([["zz", "f"], ["yy", "t"]])  # absorbed by the advertised `**overflow`
+    nvs = [(1, []), (2, []), (1, [["_new_value", "q"]]), (1, [["_new_value", "M"]]), (1, [["_new_value", "E"]]),
+           (1, [["_new_value", "U"]])]
+    flags = [[], [["_inplace", "T"]], [["_inplace", "F"]], [["_if", "F"]], [["_if", "T"], ["_inplace", "T"]],
+             [["_if", "F"], ["_inplace", "T"]]]
+    calls = []
+    for npos, nv in nvs:
+        for s in attr_sets:
+            calls.append([npos, nv + s])
+    some_sets = attr_sets[1:4] + attr_sets[-3:]
+    for npos, nv in nvs:
+        for fl in flags[1:]:
+            for s in ([[]] + (some_sets if tier == "thorough" else rng.sample(some_sets, min(2, len(some_sets))))):
+                calls.append([npos, nv + fl + s])
+    calls.append([3, []])
+    calls.append([2, [["_new_value", "q"]]])
+    for gen in (1, 2):
+        yield {"kind": "hupd", "hier": h, "gen": gen, "calls": _dedup(calls) if gen == 1 else _dedup(calls)[: 40 if tier != "thorough" else 400],
+               "origin": "hier"}
+
+
+def _dedup(calls):
+    seen, out = set(), []
+    for npos, kws in calls:
+        names = [k[0] for k in kws]
+        if len(set(names)) != len(names):
+            continue
+        key = (npos, tuple(map(tuple, kws)))
+        if key not in seen:
+            seen.add(key)
+            out.append([npos, [list(k) for k in kws]])
+    return out
 
 
 # ---------------------------------------------------------------------------
@@ -1371,10 +2281,12 @@ def gen_cases(tier, rng):
         while True:
             i += 1
             desc = random_class(rng, 1000 + i)
-            if rng.random() < 0.3:
-                desc = random_derived(rng, 1000 + i, desc)
+            while rng.random() < 0.4 and len(all_attr_descs(desc)) < 12:
+                desc = random_derived(rng, 1000 + i, desc, "S" + "D" * (1 + str(desc["name"]).count("D")))
             for c in method_cases(desc, rng, "quick", family_names(base_family())):
                 yield c
+            if i % 3 == 0:
+                yield from hier_cases(random_hier(rng, 1000 + i), rng, "quick")
             for _ in range(20):
                 yield random_builder_case(rng)
         return
@@ -1382,7 +2294,11 @@ def gen_cases(tier, rng):
     nrandom = 3 if tier == "quick" else 150
     randoms = [random_class(rng, i) for i in range(nrandom)]
     family += randoms
-    family += [random_derived(rng, i, b) for i, b in enumerate(randoms[: (1 if tier == "quick" else 40)])]
+    derived1 = [random_derived(rng, i, b) for i, b in enumerate(randoms[: (1 if tier == "quick" else 40)])]
+    # second and third generation: a class derived from a derived class (from a derived class)
+    derived2 = [random_derived(rng, i, b, "DD") for i, b in enumerate(derived1[: (1 if tier == "quick" else 20)])]
+    derived3 = [random_derived(rng, i, b, "DDD") for i, b in enumerate(derived2[: (0 if tier == "quick" else 10)])]
+    family += derived1 + derived2 + derived3
     # every class of the family is built, bootstrapped and every helper built BEFORE any call is made,
     # and the unadvertised names of each method include the attribute names of all the OTHER classes
     for desc in family:
@@ -1390,6 +2306,11 @@ def gen_cases(tier, rng):
     others = family_names(family)
     for desc in family:
         yield from method_cases(desc, rng, tier, others)
+    hiers = fixed_hiers() + [random_hier(rng, i) for i in range(6 if tier == "quick" else 120)]
+    for h in hiers:
+        build_hier(h)
+    for h in hiers:
+        yield from hier_cases(h, rng, tier)
     for _ in range(600 if tier == "quick" else 20000):
         yield random_builder_case(rng)
     for _ in range(600 if tier == "quick" else 20000):
@@ -1401,10 +2322,14 @@ def extra(tier, rng):
             "info": {"behaviour_level_checks (value given, falsy included, is what the attribute holds)": BEHAVIOUR["checks"]}}
 
 
+CASE_OFFSET = {"bind": 1, "method": 2, "builder": 2, "hinit": 3, "hupd": 4}
+
+
 def shrink(case, at=None):
     calls = case.get("calls", [])
-    if at is not None and at >= 2 and at - 2 < len(calls):
-        yield {**case, "calls": [calls[at - 2]]}
+    off = CASE_OFFSET[case["kind"]]
+    if at is not None and at >= off and at - off < len(calls):
+        yield {**case, "calls": [calls[at - off]]}
     for i in range(len(calls)):
         yield {**case, "calls": [calls[i]]}
 
@@ -1412,7 +2337,13 @@ def shrink(case, at=None):
 def nontrivial(case, real):
     keys = []
     head = real[0] if real else ""
-    off = 1 if case["kind"] == "bind" else 2
+    off = CASE_OFFSET[case["kind"]]
+    if case["kind"] in ("hinit", "hupd"):
+        head = real[2] if len(real) > 2 else ""
+        for c, line in zip(case["calls"], real[off:]):
+            if line.startswith("err") or "k." in line or "q." in line:
+                keys.append((case["kind"], head, c[0], tuple(map(tuple, c[1])), line.split(" ;; ")[0]))
+        return keys
     for c, line in zip(case.get("calls", []), real[off:]):
         if line.startswith("err") or "k." in line or "p1" in line:
             keys.append((head, tuple(c[1]), c[0], line.split(" ;; ")[0][:3]))
@@ -1424,7 +2355,17 @@ def tags(case, real):
     if case["kind"] == "method":
         t.append(f"method:{case['mkind']}")
         t.append("nested:" + ("none" if case["nested"] is None else ("overflow" if case["nested"].get("overflow") else "plain")))
-    off = 1 if case["kind"] == "bind" else 2
+    off = CASE_OFFSET[case["kind"]]
+    if case["kind"] in ("hinit", "hupd"):
+        h = case["hier"]
+        idx = h_idx(h)
+        chain = h_mro(h, h["target"])
+        t.append(f"hier-depth:{len(chain)}")
+        t.append(f"hier-spec-levels:{sum(1 for k in chain if idx[k]['spec'])}")
+        if any(not idx[k]["spec"] for k in chain):
+            t.append("hier:plain-class-in-chain")
+        if any(len(c["bases"]) > 1 for c in h["classes"]):
+            t.append("hier:several-bases")
     acc = sum(1 for ln in real[off:] if ln.startswith("ok"))
     rej = sum(1 for ln in real[off:] if ln.startswith("err"))
     t += [f"calls-accepted:{case['kind']}"] * acc + [f"calls-rejected:{case['kind']}"] * rej
@@ -1436,7 +2377,7 @@ def tags(case, real):
 
 
 MANIFEST_ENTRY = {
-    "level_text": "Lean 4 proof, for every MethodBuilder state reachable by any with_arg sequence and every call, that the synthesised wrapper accepts a call iff Python binding against the advertised signature does, forwards to the implementation exactly the values bound to each advertised parameter (shown defaults for compiled parameters, nothing for unpassed nested keywords), rejects any keyword outside the signature with TypeError before the implementation is entered, that with_spec_attrs_for yields one virtual keyword per init-enabled attribute of the nested class minus own parameters and the overflow attribute, and that the build-time compatibility check implies the forwarded call binds to the implementation; the with_arg recipe of each of the 20 generated method kinds is part of the model and proved to satisfy the hypotheses. Tied to /repo on every run: for every generated method of a generated class family the advertised signature, the compiled code object's parameters and the implementation's signature are compared with the model, and every single advertised parameter, every pair, positional overflow and unadvertised names are called on the real method with a spy in place of the implementation and on the model; random with_arg sequences on the real MethodBuilder and random signatures against inspect.Signature.bind and real defs tie the builder and the binding fragment.",
+    "level_text": "Lean 4 proof, for every MethodBuilder state reachable by any with_arg sequence and every call, that the synthesised wrapper accepts a call iff Python binding against the advertised signature does, forwards to the implementation exactly the values bound to each advertised parameter (shown defaults for compiled parameters, nothing for unpassed nested keywords), rejects any keyword outside the signature with TypeError before the implementation is entered, that with_spec_attrs_for yields one virtual keyword per init-enabled attribute of the nested class minus own parameters and the overflow attribute, and that the build-time compatibility check implies the forwarded call binds to the implementation; the with_arg recipe of each of the 20 generated method kinds is part of the model and proved to satisfy the hypotheses. Tied to /repo on every run: for every generated method of a generated class family the advertised signature, the compiled code object's parameters and the implementation's signature are compared with the model, and every single advertised parameter, every pair, positional overflow and unadvertised names are called on the real method with a spy in place of the implementation and on the model; random with_arg sequences on the real MethodBuilder and random signatures against inspect.Signature.bind and real defs tie the builder and the binding fragment. Beyond the wrapper, the two implementations that receive the class's own attribute keywords are modelled and proved: UpdateMethod.update with the mutate_value fragment it uses (every attribute keyword with a plain value is what the result holds, with or without a replacement _new_value, in place or not; untouched attributes come from the replacement / the receiver; _if=False is a no-op; edits go to a copy unless in place) and InitMethod.init with the delegation to the constructors of all spec-class ancestors (for every well-formed hierarchy of any depth, with plain classes in between and several bases: the constructor does not fail, every keyword of an init-enabled attribute is what the instance holds whoever owns the attribute, unpassed attributes hold their default, the overflow attribute collects exactly the other keywords), composed with forwards_bound into statements about the caller's call; tied on every run on generated hierarchies (metadata, MRO, owners, parent constructor signatures read off the real classes vs derived from the description; resulting attribute dictionaries, identity of the result, receiver and replacement afterwards).",
     "level_note": "Trusted: Lean kernel; axioms propext/Classical.choice/Quot.sound only; the hand-written model incl. pyBind as the semantics of Python argument binding (tested each run against inspect.Signature.bind and real functions); the harness. Hypotheses of the acceptance/forwarding theorems: virtual keyword-only arguments carry a default (true of everything with_spec_attrs_for adds), no parameter is called like the two PRIVATE globals of the generated text (_spec_classes_implementation/_spec_classes_validate_attrs; no managed attribute can be), the key attribute is not called self/kwargs (outside well-formedness: the constructor cannot be built, loud ValueError), no *args parameter for the implementation-compatibility theorem. Nested-keyword defaults are documentation, not injected (DESIGN section 10 item 9).",
     "technique": "Lean 4 proof over a model of MethodBuilder + Python argument binding; differential correspondence on every generated method with a spying implementation",
 }
